@@ -61,9 +61,9 @@ type c08Sub struct {
 	Members []string // backend names: "b<i>" live, "dead<j>" refused
 }
 
-func c08Conf(version, cname string, ports []int, subs []c08Sub, retryMax, cross, level, idle int) *sys.DataConf {
+func c08Conf(version, cname string, ports []int, subs []c08Sub, retryMax, cross, level, idle, failNum int) *sys.DataConf {
 	cl := sys.Cluster{Name: cname, RetryMax: retryMax, CrossRetry: cross, RetryLevel: level, TimeoutResponseHeaderMs: 250,
-		TimeoutConnSrvMs: 500, HashStrategy: 0, HashHeader: "X-Uid", MaxIdleConnsPerHost: idle}
+		TimeoutConnSrvMs: 500, HashStrategy: 0, HashHeader: "X-Uid", MaxIdleConnsPerHost: idle, FailNum: failNum, CheckIntervalMs: 200}
 	for _, s := range subs {
 		sc := sys.SubCluster{Name: s.Name, Weight: s.Weight}
 		for _, m := range s.Members {
@@ -89,7 +89,7 @@ func TestC08(t *testing.T) {
 		return srv.CallBacks.AddFilter(5 /*HandleForward*/, attemptLogger)
 	}}, func(p []int) *sys.DataConf {
 		ports = p
-		return c08Conf("v0", "c", p, []c08Sub{{"s0", 100, []string{"b0"}}}, 0, 0, 0, 0)
+		return c08Conf("v0", "c", p, []c08Sub{{"s0", 100, []string{"b0"}}}, 0, 0, 0, 0, 1000000)
 	})
 	n := 0
 	rapid.Check(t, func(rt *rapid.T) {
@@ -141,7 +141,23 @@ func TestC08(t *testing.T) {
 		if abortedUpload {
 			idle = 2
 		}
-		conf := c08Conf(fmt.Sprintf("v%d", n), cname, ports, subs, retryMax, cross, level, idle)
+		// health state machine: practically off, or a backend leaves rotation after one failed
+		// request (refused members then stay out, so whole sub-clusters can be without a backend)
+		failNum := rapid.SampledFrom([]int{1000000, 1000000, 1}).Draw(rt, "fail-num")
+		// another conjunction too rare to wait for: the only other sub-cluster has lost all its
+		// backends to the health state machine when the cross retry comes, while the assigned
+		// sub-cluster still has a healthy one
+		ejectedCross := !abortedUpload && rapid.IntRange(0, 7).Draw(rt, "cross-retry-into-ejected-subcluster") == 0
+		if ejectedCross {
+			subs = []c08Sub{{"s0", 100, []string{"b0", "b1", "b2"}}, {"s1", 100, []string{"dead0", "dead1"}}}
+			if rapid.Bool().Draw(rt, "swap") {
+				subs = []c08Sub{{"s0", 100, []string{"dead0", "dead1"}}, {"s1", 100, []string{"b0", "b1", "b2"}}}
+			}
+			failNum, level = 1, 1
+			retryMax = rapid.IntRange(0, 1).Draw(rt, "rm2")
+			cross = rapid.IntRange(1, 2).Draw(rt, "cr2")
+		}
+		conf := c08Conf(fmt.Sprintf("v%d", n), cname, ports, subs, retryMax, cross, level, idle, failNum)
 		if err := w.rig.Reload(conf); err != nil {
 			rec.Excluded("conf-rejected")
 			return
@@ -161,6 +177,16 @@ func TestC08(t *testing.T) {
 		// warm-up requests leave idle keep-alive connections to the live backends in BFE's
 		// pool, so that the request under test may travel on a re-used connection
 		warm := rapid.SampledFrom([]int{0, 0, 4}).Draw(rt, "warmups")
+		if failNum == 1 && rapid.Bool().Draw(rt, "warm-for-health") {
+			warm = 6
+		}
+		if ejectedCross {
+			method, bodyKind, warm = "GET", "none", 8
+			faults = nil
+			for i := 0; i <= retryMax; i++ {
+				faults = append(faults, "close-before-response")
+			}
+		}
 		if abortedUpload {
 			// a conjunction too rare to wait for: an upload on a re-used backend connection
 			// that the backend aborts while the body is still being streamed
@@ -185,13 +211,19 @@ func TestC08(t *testing.T) {
 		default:
 			rq.WriteString("\r\n")
 		}
-		fpr := fmt.Sprintf("%v|%v|rm%d cr%d lv%d idle%d|%s %s|%v|%s|w%d", subs, cname != "c", retryMax, cross, level, idle, method, bodyKind, faults, uid, warm)
+		fpr := fmt.Sprintf("%v|%v|rm%d cr%d lv%d idle%d fn%d|%s %s|%v|%s|w%d", subs, cname != "c", retryMax, cross, level, idle, failNum, method, bodyKind, faults, uid, warm)
 		wit := map[string]any{"subclusters": fmt.Sprintf("%+v", subs), "RetryMax": retryMax, "CrossRetry": cross, "RetryLevel": level,
-			"request": rq.String(), "faults": faults, "cluster_new_in_this_reload": cname != "c", "warmup_requests": warm, "MaxIdleConnsPerHost": idle}
+			"request": rq.String(), "faults": faults, "cluster_new_in_this_reload": cname != "c", "warmup_requests": warm, "MaxIdleConnsPerHost": idle, "FailNum": failNum}
 
 		for i := 0; i < warm; i++ {
 			wt := fmt.Sprintf("%s/w%d", target, i)
-			w.exchange([]byte(fmt.Sprintf("GET %s HTTP/1.1\r\nHost: example.org\r\nX-Uid: %s\r\nConnection: close\r\n\r\n", wt, uid)), 5*time.Second)
+			wuid := uid
+			if failNum == 1 {
+				// spread over the sub-clusters (the hash key decides), so that refused members
+				// everywhere have met the health state machine before the request under test
+				wuid = fmt.Sprintf("w%d%s", i, uid)
+			}
+			w.exchange([]byte(fmt.Sprintf("GET %s HTTP/1.1\r\nHost: example.org\r\nX-Uid: %s\r\nConnection: close\r\n\r\n", wt, wuid)), 5*time.Second)
 			takeAttempts(wt)
 			w.forget(wt)
 		}
@@ -266,7 +298,10 @@ func TestC08(t *testing.T) {
 		if warm > 0 && idle > 0 {
 			cls = append(cls, "warmed-idle-pool")
 		}
-		cls = append(cls, fmt.Sprintf("backend-keepalive:%v", idle > 0))
+		if ejectedCross {
+			cls = append(cls, "scenario:cross-retry-into-ejected-subcluster")
+		}
+		cls = append(cls, fmt.Sprintf("backend-keepalive:%v", idle > 0), fmt.Sprintf("health-ejects-after-one-failure:%v", failNum == 1))
 		for _, k := range kinds {
 			cls = append(cls, "outcome:"+k)
 		}
